@@ -14,31 +14,40 @@ def na3(path): return (list(path) + [0, 0, 0])[:3]
 
 class Session:
     """builds one script block"""
-    def __init__(self, sid, cfg, cfgdir, paths=None, present=None, full=True, extra_nodes=(), flush_ms=0, rounds=12):
-        self.sid = sid; self.cfg = cfg; self.full = full; self.nb = 0; self.stopped = False
-        self.paths = paths if paths is not None else cfgmod.paths(cfg)
-        if present is not None: self.paths = {b: p for b, p in self.paths.items() if b in present}
+    def __init__(self, sid, cfg, cfgdir, paths=None, present=None, full=True, extra_nodes=(), flush_ms=0, rounds=12, tree=None, boot=False, bus_opts=()):
+        """tree: list of (path, uid) played by the bus simulator (default: derived from paths / the configuration);
+        boot: start-up session (automatic replies on, no drain rounds, transcript + connectivity checked, C15/C20)"""
+        self.sid = sid; self.cfg = cfg; self.full = full; self.nb = 0; self.stopped = False; self.boot = boot
+        uid = {b["id"]: b["uid"] for b in cfg["boards"]}
+        if tree is None:
+            self.paths = paths if paths is not None else cfgmod.paths(cfg)
+            if present is not None: self.paths = {b: p for b, p in self.paths.items() if b in present}
+            tree = [(list(p), uid[b]) for b, p in self.paths.items()]
+            if not any(p == [] for p, _ in tree): tree.append(([], [0x80, 0, 0x0d, 0, 0, 0, 1]))      # an interface nobody configured
+            tree += [(list(p), list(u)) for p, u in extra_nodes]
+        else:
+            byuid = {tuple(u): b for b, u in uid.items()}
+            self.paths = {byuid[tuple(u)]: list(p) for p, u in tree if tuple(u) in byuid}             # informational (generators)
+        self.tree = [(list(p), list(u)) for p, u in tree]
         self.s = Script(sid); self.ev = []          # ev: list of dict(tmpl, act, drain, get) line indexes
         cfgmod.write(cfg, cfgdir)
         s = self.s
-        s.add("bus clear"); s.add("bus on"); s.add("bus autoreply off")
-        uid = {b["id"]: b["uid"] for b in cfg["boards"]}
+        s.add("bus clear"); s.add("bus on"); s.add("bus autoreply " + ("on" if boot else "off"))
         self.nodes = []
-        for b, p in self.paths.items():
-            s.add("bus node %02x %02x %02x %s" % (tuple(na3(p)) + ("".join("%02x" % x for x in uid[b]),)))
-            self.nodes.append(list(p))
-        if [] not in self.nodes:
-            s.add("bus node 00 00 00 80000d00000001"); self.nodes.append([])     # an interface nobody configured
-        for p, u in extra_nodes:
+        for p, u in self.tree:
             s.add("bus node %02x %02x %02x %s" % (tuple(na3(p)) + ("".join("%02x" % x for x in u),))); self.nodes.append(list(p))
+        for o in bus_opts: s.add("bus " + o)
         s.add("debug 0")
         self.start_line = len(s.lines); s.add("start %s %d" % (cfgdir, flush_ms))
         self.drain_lines = []
-        for _ in range(rounds):
-            s.add("tick 3")
-            for n in self.nodes:
-                self.drain_lines.append(len(s.lines)); s.add("feed " + wire.hexs(wire.packet([wire.msg(n, 0, 0x82, [0])])))
-        s.add("tick 3"); s.add("drain")
+        if not boot:
+            for _ in range(rounds):
+                s.add("tick 3")
+                for n in self.nodes:
+                    self.drain_lines.append(len(s.lines)); s.add("feed " + wire.hexs(wire.packet([wire.msg(n, 0, 0x82, [0])])))
+            s.add("tick 3"); s.add("drain")
+        else:
+            s.add("waitidle"); self.drain_lines.append(len(s.lines)); s.add("flush")
         self.start_get = len(s.lines); s.add("getall")
 
     # ---- logical events
@@ -124,15 +133,18 @@ def to_events(sess, rr):
     for k, ln in enumerate(sess.drain_lines):
         o = out.get(ln, [{}]); w = wire_of(o); bs += w
         if w and k >= len(sess.drain_lines) - 2 * max(1, len(sess.nodes)): tail_quiet = False
-    if not tail_quiet: probs.append("startup traffic not drained")
+    if not tail_quiet and not sess.boot: probs.append("startup traffic not drained")
     last = {}
     for p in wire.decode(bs):
         for m in p["msgs"]:
             if m["seq"] != 0: last[tuple(m["addr"])] = m["seq"]
     g = out.get(sess.start_get)
     if not g: return [], ["no projection after start"]
-    evs = [{"e": "start", "cfg": cfgmod.to_spec(sess.cfg), "paths": [{"b": b, "a": list(p)} for b, p in sess.paths.items()],
-            "seqs": [{"n": list(n), "s": s} for n, s in last.items()], "cap": 64, "nost": 0, "st": keyed(g[0]["st"])}]
+    evs = [{"e": "start", "cfg": cfgmod.to_spec(sess.cfg), "tree": [{"p": list(p), "uid": list(u)} for p, u in sess.tree],
+            "seqs": [{"n": list(n), "s": s} for n, s in last.items()], "cap": 64, "boot": 1 if sess.boot else 0,
+            "nost": 1 if sess.boot else 0, "st": 0 if sess.boot else keyed(g[0]["st"]),
+            }]
+    if sess.boot: evs += [{"e": "bootw", "w": bs}, {"e": "booti"}, {"e": "boot", "conn": keyed(g[0]["st"])["boards"]}]
     for e in sess.ev:
         a = out.get(e["act"])
         if not a: probs.append("missing output at line %d" % e["act"]); break
@@ -187,11 +199,45 @@ def rand_uplink(rng, sess):
         if cfg["trains"] and rng.random() < 0.85:
             t = rng.choice(cfg["trains"]); return t["al"], t["ah"]
         return rng.randrange(256), rng.choice([0, 1, 0x3F])
-    kind = rng.choice(["occ", "free", "multi", "addr", "addr", "conf", "cur", "speed", "dyn", "bstat", "bdiag", "cs", "dack", "aack",
-                       "dman", "aman", "lcstat", "lcwait", "acc", "accn", "vendor", "queue", "queue", "pos", "devent"])
+    # bursts: several consecutive messages about the same entity (history-dependent effects need the same segment /
+    # accessory / train to be hit repeatedly in varying order)
+    GROUPS = {"seg": ["occ", "free", "multi", "addr", "addr", "conf", "cur"], "acc": ["acc", "accn"], "dacc": ["aack", "aman"],
+              "per": ["lcstat", "lcwait"], "trn": ["speed", "dyn", "dack", "dman", "addr"], "bst": ["bstat", "bdiag", "cs"]}
+    st = getattr(sess, "_stick", None)
+    if st and st["ttl"] > 0:
+        st["ttl"] -= 1; kind = rng.choice(GROUPS[st["g"]]); fixed = st
+    else:
+        fixed = None
+        kind = rng.choice(["occ", "free", "multi", "addr", "addr", "conf", "cur", "speed", "dyn", "bstat", "bdiag", "cs", "dack", "aack",
+                           "dman", "aman", "lcstat", "lcwait", "acc", "accn", "vendor", "queue", "queue", "pos", "devent"])
+        if rng.random() < 0.25:
+            grp = rng.choice(list(GROUPS))
+            sess._stick = {"g": grp, "ttl": rng.choice([2, 3, 5]), "seg": rng.choice(ent["seg"]) if ent["seg"] else None,
+                           "acc": rng.choice(ent["pb"] + ent["sb"]) if ent["pb"] + ent["sb"] else None,
+                           "dacc": rng.choice(ent["pd"] + ent["sd"]) if ent["pd"] + ent["sd"] else None,
+                           "per": rng.choice(ent["per"]) if ent["per"] else None,
+                           "trn": rng.choice(cfg["trains"]) if cfg["trains"] else None}
+    def pick(key, pool):
+        if fixed and fixed.get(key): return fixed[key]
+        return rng.choice(pool)
+    if fixed and fixed.get("trn"):
+        _t = fixed["trn"]
+        def dcc_of_train(): return _t["al"], _t["ah"]
     anyb = rng.choice(boards) if boards else None
+    if getattr(sess, "nodetab_events", False) and not fixed and rng.random() < sess.nodetab_events:
+        # node-table notices (C15): loss of a connected board / interface, login of an absent or lost board (possibly at a new
+        # address), notices about unknown unique ids; sender = an interface of the tree
+        ver = rng.randrange(1, 255)
+        ifaces = [p for p, u in sess.tree if (u[0] & 0x80 or p == []) and len(p) < 3] or [[]]
+        if rng.random() < 0.5 and boards:
+            b = rng.choice(boards); u = uid[b]
+            return rng.choice(ifaces), 0x8c, [ver, rng.randrange(1, 20)] + list(u)                   # NODE_LOST
+        if rng.random() < 0.8 and boards:
+            b = rng.choice(boards); u = uid[b]
+        else: u = [rng.randrange(256) for _ in range(7)]
+        return rng.choice(ifaces), 0x8d, [ver, rng.choice([1, 2, 3, 9, 200])] + list(u)              # NODE_NEW
     if kind in ("occ", "free", "cur", "addr", "multi", "conf"):
-        if ent["seg"] and rng.random() < 0.9: b, sg = rng.choice(ent["seg"]); num = sg["addr"] if rng.random() < 0.9 else bval(rng)
+        if ent["seg"] and rng.random() < 0.9: b, sg = pick("seg", ent["seg"]); num = sg["addr"] if rng.random() < 0.9 else bval(rng)
         elif anyb: b, num = anyb, bval(rng)
         else: b, num = None, 0
         n = node_of(b) if b else [9]
@@ -232,14 +278,14 @@ def rand_uplink(rng, sess):
                                                    rng.randrange(32), bval(rng), bval(rng), bval(rng)]
     if kind in ("aack", "aman"):
         pool = ent["pd"] + ent["sd"]
-        if pool and rng.random() < 0.9: b, a = rng.choice(pool); al, ah = a["al"], a["ah"]
+        if pool and rng.random() < 0.9: b, a = pick("dacc", pool); al, ah = a["al"], a["ah"]
         else: b, al, ah = anyb, rng.randrange(256), 1
         n = node_of(b) if b else [9]
         if kind == "aack": return n, 0xe3, [al, ah, rng.choice([0, 1, 2, 3, 4])]
         return n, 0xe7, [al, ah, bval(rng)]
     if kind in ("lcstat", "lcwait"):
         if ent["per"] and rng.random() < 0.9:
-            b, p = rng.choice(ent["per"]); p0, p1 = p["p0"], p["p1"]
+            b, p = pick("per", ent["per"]); p0, p1 = p["p0"], p["p1"]
             v = rng.choice([a["val"] for a in p["aspects"]] + [bval(rng)])
         else: b, p0, p1, v = anyb, bval(rng), bval(rng), bval(rng)
         n = node_of(b) if b else [9]
@@ -247,7 +293,7 @@ def rand_uplink(rng, sess):
     if kind in ("acc", "accn"):
         pool = ent["pb"] + ent["sb"]
         if pool and rng.random() < 0.9:
-            b, a = rng.choice(pool); num = a["num"]; asp = rng.choice([x["val"] for x in a["aspects"]] + [bval(rng)])
+            b, a = pick("acc", pool); num = a["num"]; asp = rng.choice([x["val"] for x in a["aspects"]] + [bval(rng)])
         else: b, num, asp = anyb, bval(rng), bval(rng)
         n = node_of(b) if b else [9]
         ex = rng.choice([0, 1, 2, 3, 0x80, 0x80])
